@@ -79,6 +79,40 @@ pub fn gen(rng: &mut Rng, n: usize, thorough: bool, emit: &mut dyn FnMut(String)
             }
         }
     }
+    // the first (and/or second) record's encoder fails: the policy is consulted before the encoder,
+    // so the start-up rotation belongs to the first record that ARRIVES
+    for &min in &[0u64, 1, 5, 4096] {
+        let mut pres = vec![None, Some(0u64), Some(min), Some(min + 1)];
+        if min > 0 {
+            pres.push(Some(min - 1));
+        }
+        for pre in pres {
+            for append in [true, false] {
+                for roll in [RollSpec::Delete, RollSpec::Fw { base: 1, count: 2, pat: 0 }] {
+                    let pre_arch = match &roll {
+                        RollSpec::Fw { base, .. } => vec![(*base, 3u64)],
+                        RollSpec::Delete => vec![],
+                    };
+                    let case = Case {
+                        append,
+                        pre_active: pre,
+                        pre_arch,
+                        trig: TrigSpec::Startup(min),
+                        roll: roll.clone(),
+                        clock0: 1_700_000_000,
+                    };
+                    let ok = |id: u64, n: u64| RecSpec::Bin { id, sizes: vec![n] }.render();
+                    for ops in [
+                        vec![format!("e0!{}", ok(1, 4)), ok(2, 3), ok(3, 1)],
+                        vec![format!("e1!{}", RecSpec::Bin { id: 1, sizes: vec![2, 2] }.render()), format!("e0!{}", ok(2, 3)), ok(3, 1), "r".to_owned(), format!("e1!{}", ok(4, 2)), ok(5, 1)],
+                        vec![ok(1, 4), format!("e0!{}", ok(2, 3)), ok(3, 1)],
+                    ] {
+                        emit(format!("seq\t{}\t{}", case.render(), enc_list(",", &ops)));
+                    }
+                }
+            }
+        }
+    }
     // the one rotation request: the roller does its work and reports Err on the first record
     for &min in &[0u64, 1, 5] {
         for append in [true, false] {
